@@ -82,5 +82,15 @@ theorem wp_result {m : M σ α} (h : wp m Q E s) :
   · intro a s' hm; simp only [hm] at h; exact h
   · intro e s' hm; simp only [hm] at h; exact h
 
+/-- when the effect of `m` is irrelevant: whatever it returns or raises, in whatever state -/
+theorem wp_havoc {m : M σ α} (hq : ∀ a s', Q a s') (he : ∀ e s', E e s') : wp m Q E s := by
+  unfold wp
+  cases m s with
+  | mk r s' => cases r <;> simp [hq, he]
+
 end
+
+macro "wps" : tactic => `(tactic| simp only [wp_bind, wp_pure, wp_Mpure, wp_raise, wp_getS, wp_modifyS, wp_ite,
+  wp_liftExcept, wp_tryCatch, wp_zoom])
+
 end H2
